@@ -2,7 +2,9 @@
 # usage: saveseed.py <Cxx> <name> "<needs>" "<detected by>"
 import sys, os, shutil, json, glob
 pid, name, needs, det = sys.argv[1:5]
-src = f"/tmp/seed_{pid}"
+also = sys.argv[5].split(",") if len(sys.argv) > 5 and sys.argv[5] else []
+import os as _os
+src = _os.environ.get("SEEDSRC", f"/tmp/seed_{pid}")
 dst = f"/verif/seeded/{name}"
 os.makedirs(dst, exist_ok=True)
 shutil.copy(f"{src}/patch.diff", dst)
@@ -11,6 +13,6 @@ for f in glob.glob(f"{src}/*seed_demo*") + glob.glob(f"{src}/notes.md"):
 meta = {"property": pid, "needs_to_manifest": needs,
         "confirmed": "in a scratch worktree of /repo: go build ok; existing suite (go test -vet=off -count=1 ./...) passes with the change and the demo set aside; demo test fails with the change and passes with the change reverted (git apply -R)",
         "ran": f"/verif/seedcheck.sh {pid} verify  (applies patch.diff to /repo, runs every registered check, git checkout -- .)",
-        "detected_by": det}
+        "detected_by": det, "also_detected_by": also}
 json.dump(meta, open(f"{dst}/meta.json", "w"), indent=1)
 print("saved", dst)
